@@ -84,7 +84,7 @@ PROPS["C16"] = {
     "plan": {"quick": [("debug", 150, 8), ("debug_cond", 80, 8), ("muc", 60, 6)], "thorough": [("debug", 1500, 16), ("debug_cond", 800, 16), ("muc", 600, 12)]},
     "family_layers": {"debug_cond": ["mux"], "muc": ["muc", "mux"]},
     "extra_corpus": ["C01"],
-    "level_text": "Buffer half: kernel-checked theorem C16_buffer over the Emit model (emit_init/emit_c/emit_print of debug.c) for every n (incl. 0 and negative) and every NUL-free character stream: writes only inside buf[0..n-1], NUL-terminated for n>=1, ends in '...' when truncated and n>=4, untruncated output is exact; tied by a differential run of the real debug.c (canaries around the buffer, all n in -1..80, states with 0..3 queued waiters). Observer half (mutex): in the MuX protocol a debug-state call is an `observe` call whose only admitted writes toggle MU_SPINLOCK and nothing else; C16_mu_observer proves that a step of an observing thread changes no owner, no client-visible holder, no lock bit and none of the six hint bits (the wake-up bookkeeping), for every reachable state and interleaving, and C01's exclusion theorem quantifies over programs containing observers; tied by lockstep replay of debug-family scenarios (the acceptor rejects any other write by a debug caller — this is how F1 was found) plus exclusion/progress oracles. Observer half (condition variable): the CvFix model contains the debug callers (load; for the *_and_waiters / debugger variants the spinlock loop, the walk over the queue with its loads of `waiting` and `remove_count`, the release store); a step of a thread inside a debug call changes nothing of the cv state but the spinlock bit, the release store writes exactly the word the test-and-set returned, which equals the current word minus the spinlock bit (this uses 'every change of the cv word happens under the spinlock'), so the queue invariant and the no-lost-wake-up theorem of C04 hold in every reachable state of the model WITH observers (C16_cv_observer, C16_cv_observer_release_exact, C16_cv_no_lost_wake); an observer holds the spinlock for a number of own steps bounded by twice the queue length, the non-blocking variants never wait for it, and no observer ever performs a semaphore operation (C16_cv_observer_progress); the records it reads are queued with their owners inside their waits (C16_cv_observer_record_access); a stale release word is rejected (C16_cv_stale_release_rejected). Tied by lockstep replay of the debug family through the CvFix acceptor.",
+    "level_text": "Buffer half: kernel-checked theorem C16_buffer over the Emit model (emit_init/emit_c/emit_print of debug.c) for every n (incl. 0 and negative) and every NUL-free character stream: writes only inside buf[0..n-1], NUL-terminated for n>=1, ends in '...' when truncated and n>=4, untruncated output is exact; tied by a differential run of the real debug.c (canaries around the buffer, all n in -1..80, states with 0..3 queued waiters). Observer half (mutex): in the MuX protocol a debug-state call is an `observe` call whose only admitted writes toggle MU_SPINLOCK and nothing else; C16_mu_observer proves that a step of an observing thread changes no owner, no client-visible holder, no lock bit and none of the six hint bits (the wake-up bookkeeping), for every reachable state and interleaving, and C01's exclusion theorem quantifies over programs containing observers; tied by lockstep replay of debug-family scenarios (the acceptor rejects any other write by a debug caller — this is how F1 was found) plus exclusion/progress oracles. Observer half (condition variable): the CvFix model contains the debug callers (load; for the *_and_waiters / debugger variants the spinlock loop, the walk over the queue with its loads of `waiting` and `remove_count`, the release store); a step of a thread inside a debug call changes nothing of the cv state but the spinlock bit, the release store writes exactly the word the test-and-set returned, which equals the current word minus the spinlock bit (this uses 'every change of the cv word happens under the spinlock'), so the queue invariant and the no-lost-wake-up theorem of C04 hold in every reachable state of the model WITH observers (C16_cv_observer, C16_cv_observer_release_exact, C16_cv_no_lost_wake); an observer holds the spinlock for a number of own steps bounded by twice the queue length, the non-blocking variants never wait for it, and no observer ever performs a semaphore operation (C16_cv_observer_progress); the records it reads are queued with their owners inside their waits (C16_cv_observer_record_access); a stale release word is rejected (C16_cv_stale_release_rejected). Tied by lockstep replay of the debug family through the CvFix acceptor. 'Never deadlocks' with nsync_mu_wait in play (Props/C16Callback over MuC): the only lock a debug call ever waits for is the queue spinlock, and no client condition is ever evaluated by a thread that owns it (C16_no_callback_under_spinlock, C16_spinlock_regions_callback_free, C16_spinlock_bit_is_owner) — so a debug call made from inside a condition finds it free or held by a thread in a callback-free region; family debug_cond makes exactly that call.",
     "level_note": "Observer half: 'never loses a wake-up / never deadlocks' is proved as 'touches nothing but the spinlock bit' (mutex); the liveness consequence (other threads' progress is unaffected) relies on C02's invariants, which are stated for programs without debug calls — the spinlock is released after finitely many own steps (no loop between the two CASes except the printing). emit_print's varargs formatting is modelled for %s and %i only (all that debug.c uses).",
 }
 
@@ -160,7 +160,7 @@ PROPS["C02"] = {
     "family_layers": {"nw_release": ["muc", "mux"]},
     "plan": {"quick": [("core", 200, 8), ("core@ps", 200, 10), ("starve@ps", 60, 12), ("muwait", 60, 6), ("cv", 60, 6), ("cv_rsignal", 40, 6), ("late_looker", 40, 6), ("nw_release", 100, 8)],
              "thorough": [("core", 2000, 16), ("core@ps", 2000, 16), ("late_looker", 400, 12), ("nw_release", 1000, 16), ("starve@ps", 600, 20), ("muwait", 600, 12), ("cv", 600, 12), ("cv_rsignal", 400, 12), ("mixed", 600, 12)]},
-    "level_text": "Kernel-checked theorems over the MuQ model (mu.c lock/rlock/trylock/rtrylock/unlock/runlock/lock_slow/unlock_slow statement by statement: word with interpreted hint bits, waiter queue, per-waiter waiting flag and semaphore, 31 program points, one step per atomic operation; any number of threads; counting and binary semaphores): try-locks are wait-free (at most 3 atomic operations, never a semaphore wait); inductive invariants for spinlock, lock bits, queue and hint bits; every queued sleeper has somebody responsible for waking it (a share holder, a woken thread in flight, or an unlocker mid-scan: C02_responsible); a woken thread's post is never lost (C02_woken_not_lost); and there is NO reachable state in which every thread is idle-holding-nothing or asleep unless nobody is asleep (C02_no_stuck_state); obstruction-freedom with explicit bounds: a thread running alone with the spinlock free completes its acquisition attempt (returns or goes to sleep) within 14 + 3·M own steps and its release within a bound linear in the queue length (C02_solo_progress, C02_solo_acquire, C02_solo_release); every awake thread inside a call has an enabled step (C02_thread_enabled); the leads-to argument in existential-schedule form with an explicit lexicographic ranking: from every reachable state with t asleep there is a finite schedule without barging and without new acquisitions after which t's semaphore has been posted, and one after which every thread is idle holding nothing (C02_leads_to_wake, C02_can_always_complete, C02_stage_monotone); and FAIR TERMINATION itself: in every infinite execution of the model that is weakly fair, in which every holder eventually calls unlock, with finitely many arrivals and finitely many failed CASes on the foreign remove_count word, every call eventually returns — indeed the whole system eventually becomes quiescent with nobody holding anything (C02_fair_termination, C02_fair_quiescence, C02_fair_return, C02_fair_wake), and each of the three side hypotheses is necessary (explicit fair counter-executions C02_fair_needs_release, C02_fair_needs_rc, C02_fair_needs_arrivals). Tied to the code by lockstep replay of harness executions of the real mu.c through the MuQ acceptor (every event: op kind, order, location, expected/new/observed values) plus the global-progress oracle on the real executions, which also runs the full alphabet (mu_wait, cv, wait_n).",
+    "level_text": "Kernel-checked theorems over the MuQ model (mu.c lock/rlock/trylock/rtrylock/unlock/runlock/lock_slow/unlock_slow statement by statement: word with interpreted hint bits, waiter queue, per-waiter waiting flag and semaphore, 31 program points, one step per atomic operation; any number of threads; counting and binary semaphores): try-locks are wait-free (at most 3 atomic operations, never a semaphore wait); inductive invariants for spinlock, lock bits, queue and hint bits; every queued sleeper has somebody responsible for waking it (a share holder, a woken thread in flight, or an unlocker mid-scan: C02_responsible); a woken thread's post is never lost (C02_woken_not_lost); and there is NO reachable state in which every thread is idle-holding-nothing or asleep unless nobody is asleep (C02_no_stuck_state); obstruction-freedom with explicit bounds: a thread running alone with the spinlock free completes its acquisition attempt (returns or goes to sleep) within 14 + 3·M own steps and its release within a bound linear in the queue length (C02_solo_progress, C02_solo_acquire, C02_solo_release); every awake thread inside a call has an enabled step (C02_thread_enabled); the leads-to argument in existential-schedule form with an explicit lexicographic ranking: from every reachable state with t asleep there is a finite schedule without barging and without new acquisitions after which t's semaphore has been posted, and one after which every thread is idle holding nothing (C02_leads_to_wake, C02_can_always_complete, C02_stage_monotone); and FAIR TERMINATION itself: in every infinite execution of the model that is weakly fair, in which every holder eventually calls unlock, with finitely many arrivals and finitely many failed CASes on the foreign remove_count word, every call eventually returns — indeed the whole system eventually becomes quiescent with nobody holding anything (C02_fair_termination, C02_fair_quiescence, C02_fair_return, C02_fair_wake), and each of the three side hypotheses is necessary (explicit fair counter-executions C02_fair_needs_release, C02_fair_needs_rc, C02_fair_needs_arrivals). Tied to the code by lockstep replay of harness executions of the real mu.c through the MuQ acceptor (every event: op kind, order, location, expected/new/observed values) plus the global-progress oracle on the real executions, which also runs the full alphabet (mu_wait, cv, wait_n). On a mutex that is also used with nsync_mu_wait / nsync_mu_unlock_without_wakeup the same no-stuck-state and responsibility statements hold over the MuC model (C06_no_stuck_state, C06_responsible, C06_responsible_pending, C06_lock_slow_record: nobody sleeps inside nsync_mu_lock / rlock in a quiescent state); family nw_release and the quiescence oracle lock-missed exercise it, family late_looker (scheduler strategy 6) the designated-waker rule under MU_LONG_WAIT.",
     "level_note": "Scope of the theorems is the property's own quantifier (core operations on one mutex; a mutex used with mu_wait/cv/wait_n/debug is out of MuQ's scope and covered by lockstep through MuX plus the progress oracle only). 'Eventually returns' is a theorem about the model's infinite executions (C02_fair_termination) under weak fairness + the property's own hypothesis (holders release) + two side hypotheses that the formalisation shows to be necessary: finitely many failed CASes on the foreign remove_count word (the acceptor admits such a failure whenever the log reports one), and finite arrivals (a thread can be overtaken between its load and its enqueue CAS by lock/unlock pairs on the fast paths for ever; nsync bounds barging once a waiter has escalated — C14 — but the statement is about arbitrary arrivals). Waiter-pool allocation is an allocator contract.",
 }
 PROPS["C14"] = {
@@ -173,7 +173,7 @@ PROPS["C14"] = {
     "oracles": {"stuck", "steplimit", "panic", "starved"},
     "plan": {"quick": [("core", 150, 8), ("starve", 40, 10), ("starve_cv", 40, 10), ("starve_mix", 20, 8), ("late_looker", 30, 6)], "thorough": [("core", 1500, 16), ("late_looker", 300, 12), ("starve", 400, 20), ("starve_cv", 400, 20), ("starve_mix", 200, 12)]},
     "family_layers": {"starve_cv": ["cv", "mux"], "starve_mix": ["muc", "mux"]},
-    "level_text": "Kernel-checked theorems over the MuQ model: a thread inside lock_slow has its long-wait flag set exactly from its 30th wake-up on (C14_escalates); it then sets MU_LONG_WAIT in every enqueue and re-queues at the FRONT (C14_sets_bit, C14_requeue_front); while the bit (or, for fresh readers, MU_WRITER_WAITING) is set no step of a thread that has not itself waited acquires — fast paths, try-locks and lock_slow with clear = 0 (C14_blocks_fresh); the bit is cleared only by the acquiring CAS of a thread that itself escalated (C14_cleared_only_by_long_waiter); a woken thread is stopped only by real lock conflicts (C14_woken_ignores_hints). A directed corpus schedule drives the real library through 30 wake-ups of a victim and checks the same steps in lockstep; the harness measures the number of sleeps of a victim inside one lock call under adversarial barging.",
+    "level_text": "Kernel-checked theorems over the MuQ model: a thread inside lock_slow has its long-wait flag set exactly from its 30th wake-up on (C14_escalates); it then sets MU_LONG_WAIT in every enqueue and re-queues at the FRONT (C14_sets_bit, C14_requeue_front); while the bit (or, for fresh readers, MU_WRITER_WAITING) is set no step of a thread that has not itself waited acquires — fast paths, try-locks and lock_slow with clear = 0 (C14_blocks_fresh); the bit is cleared only by the acquiring CAS of a thread that itself escalated (C14_cleared_only_by_long_waiter); a woken thread is stopped only by real lock conflicts (C14_woken_ignores_hints). A directed corpus schedule drives the real library through 30 wake-ups of a victim and checks the same steps in lockstep; the harness measures the number of sleeps of a victim inside one lock call under adversarial barging. Across condition variables (Props/C14Cv over CvFix): the end of a cv wait calls nsync_mu_lock_slow_ with MU_DESIG_WAKER — the only way to ignore MU_LONG_WAIT without having queued on the mutex oneself — exactly for waiters that wake_waiters moved to the mutex queue and an unlocker woke; every other return (timeout, cancellation, direct wake-up) re-acquires as a fresh locker (C14_cv_relock_slow_only_transferred, C14_cv_untransferred_uses_plain_lock, C14_cv_reacquire_paths_exclusive, C14_cv_xferd_is_transfer, C14_cv_transferred_was_woken_by_waker); family starve_cv under the adversarial strategies.",
     "level_note": "The prose bound ('sent back to sleep only a bounded number of times') is proved as the mechanism above; with several escalated waiters one of them may clear the bit while another still sleeps (it re-raises it at its next enqueue), so the numeric bound is measured by the harness oracle (sleeps in one call <= 30 + number of fibers + margin), not proved in general.",
 }
 PROPS["C10"] = {
@@ -212,7 +212,7 @@ PROPS["C04"] = {
              "thorough": [("cv", 1200, 16), ("cv_raw", 600, 16), ("cv_rsignal", 600, 16), ("waitn_cv", 800, 16), ("waitn_atomic", 800, 16), ("cv_rwr", 600, 12), ("cv@ps", 800, 16), ("waitn_cv@ps", 600, 16), ("muc_cv", 800, 16)]},
     "harness_args": ["checkplain=1"],
     "family_layers": {"waitn_atomic": ["waitn", "cv", "mux"], "muc_cv": ["cv", "muc", "mux"]},
-    "level_text": "Kernel-checked theorems over the CvFix model (cv.c — with the repair of defect F3 — and sem_wait.c statement by statement: cv word, queue, pooled waiter records with remove_count and bare nsync_waiter_s records of nsync_wait_n, private to-wake lists, transfer to the mutex queue; any number of threads; both semaphore flavours): queue/non-empty-bit invariant, spinlock exclusion, enqueue-before-release (wait is atomic w.r.t. wakers), signal unlinks the first waiter and, if it is a reader, every reader plus at most one other, broadcast unlinks every waiter enqueued before its first load, an unlinked record is woken (flag cleared and semaphore posted) or its waker is still in flight (no lost wake-up), every wait instance is unlinked at most once, by a waker xor by itself — for ALL record kinds (C04_unlink_once) —, a cv wait returns non-zero only if it unlinked itself, and for nsync_wait_n cv_dequeue reports 'still enqueued' exactly when the record was unlinked by its owner (a waker-unlinked record is reported as ready: C04_outcome). Tied to the code by lockstep replay of the cv / cv_raw / cv_rsignal / waitn_cv families (incl. cancellable waits) through the CvFix acceptor, with the swallowed-wake-up and dead-object oracles on the implementation side.",
+    "level_text": "Kernel-checked theorems over the CvFix model (cv.c — with the repair of defect F3 — and sem_wait.c statement by statement: cv word, queue, pooled waiter records with remove_count and bare nsync_waiter_s records of nsync_wait_n, private to-wake lists, transfer to the mutex queue; any number of threads; both semaphore flavours): queue/non-empty-bit invariant, spinlock exclusion, enqueue-before-release (wait is atomic w.r.t. wakers), signal unlinks the first waiter and, if it is a reader, every reader plus at most one other, broadcast unlinks every waiter enqueued before its first load, an unlinked record is woken (flag cleared and semaphore posted) or its waker is still in flight (no lost wake-up), every wait instance is unlinked at most once, by a waker xor by itself — for ALL record kinds (C04_unlink_once) —, a cv wait returns non-zero only if it unlinked itself, and for nsync_wait_n cv_dequeue reports 'still enqueued' exactly when the record was unlinked by its owner (a waker-unlinked record is reported as ready: C04_outcome). Tied to the code by lockstep replay of the cv / cv_raw / cv_rsignal / waitn_cv families (incl. cancellable waits) through the CvFix acceptor, with the swallowed-wake-up and dead-object oracles on the implementation side. The nsync_wait_n half of 'releasing the mutex and starting to wait is atomic' is a theorem over the WaitN model (Props/C04WaitN): the release of the supplied mutex is accepted only after every object has been through its enqueue, and from that step on every cv record of the call is on pcv->waiters or has already been unlinked by a signaller (C04_waitn_atomic, C04_waitn_release_after_enqueue, C04_waitn_enqueued_at_release, C04_waitn_enqueued_while_unlocked); exercised by family waitn_atomic (Mesa loop around nsync_wait_n without deadline, waker sets the state and broadcasts under the mutex).",
     "level_note": "On the pinned tree C04_unlink_once / C04_outcome were false for nsync_wait_n records (defect F3, now fixed in /repo: the old Cv model with the refutation is kept in the library as Props/C04.lean, the F3 schedule is a corpus regression). Transferred waiters are handed to the mutex queue (C02). The mutex is abstract in this layer. Fair termination is a paper step.",
 }
 PROPS["C08"] = {
@@ -292,7 +292,7 @@ PROPS["C13"] = {
     "plan": {"quick": [("refcount", 150, 10), ("refcount_mw", 100, 12), ("waitn", 100, 8), ("waitn_rep", 80, 8), ("waitn_f3", 60, 8), ("cv", 80, 8), ("muc", 40, 6), ("cancel_only", 80, 8), ("note", 60, 8), ("note_wc", 100, 10), ("cancel_children", 60, 10), ("refcount@ps", 100, 10), ("waitn_rep@ps", 60, 8), ("cv@ps", 60, 8)],
              "thorough": [("refcount", 1500, 20), ("refcount_mw", 1000, 24), ("waitn", 1000, 16), ("waitn_rep", 800, 16), ("waitn_f3", 600, 16), ("cv", 800, 16), ("muc", 400, 12), ("cancel_only", 800, 16), ("note", 600, 16), ("note_wc", 1000, 20), ("cancel_children", 600, 20), ("refcount@ps", 1000, 20), ("waitn_rep@ps", 600, 16), ("cv@ps", 600, 16)]},
     "harness_args": ["checkplain=1"],
-    "level_text": "Kernel-checked theorems: (mutex, MuQ model) once a thread inside nsync_mu_unlock / runlock / unlock_slow owns neither a share nor the spinlock, no later step of that call touches the mutex, and the step that crosses that point is a successful CAS on the word (C13_release_point, C13_release_is_last_needed): whoever acquires afterwards and frees the memory races with nothing; (cv, CvFix model of the repaired cv.c) every access to a waiter record by a thread other than its owner happens while the record is queued or on that waker's private list with its owner still inside the wait, for pooled records and for nsync_wait_n records alike, and the owner returns only after the record is on no list (C13_record_touch, C13_record_touch_nw_full_true, C13_owner_returns_clean[_waitn]); the V that follows the waker's last store touches no record (C13_late_V_touches_nothing); (nsync_wait_n, WaitN model) every access by a non-owner to a record of notes / counters / cvs is to a registered record, and at the return no record of the call is registered, queued or on a waker's list (C13_record_lifetime, C13_owner_returns_after); (cancellable cv / mu waits, SemWait model of sem_wait.c with the note-side walk of note.c) every access by a notifier to the on-stack record of nsync_sem_wait_with_cancel_ happens under the note's mutex with the record at the head of the note's list or just popped, while the owner is between its enqueue and the return of its final nsync_mu_lock (&note_mu), and the owner returns with the record on no list and no post owed (C13_cancel_record_touch, C13_cancel_owner_returns_clean). The waiter-pool contract all these layers assume is itself modelled and proved (Pool layer over common.c: a waiter struct is in use by at most one call at a time, the free list holds exactly the idle non-reserved structs and is touched only under its spinlock, `remove_count` / `waiting` / `flags` / `sem` are written by pool code only in the initialisation block — so remove_count is monotone across reuses —, a thread's reserved struct comes back to that thread: Pool_exclusive, Pool_free_list_inv, Pool_init, Pool_remove_count_monotone, Pool_reserved). Tied to the code by lockstep (refcount / waitn* / cv / muc families through the matching acceptors) and by the runtime's liveness tracking: every atomic AND plain access (TSan instrumentation) of every explored execution is checked against reclaimed heap blocks, reclaimed mutexes and dead stack records (oracles dead-object, dead-stack).",
+    "level_text": "Kernel-checked theorems: (mutex, MuQ model) once a thread inside nsync_mu_unlock / runlock / unlock_slow owns neither a share nor the spinlock, no later step of that call touches the mutex, and the step that crosses that point is a successful CAS on the word (C13_release_point, C13_release_is_last_needed): whoever acquires afterwards and frees the memory races with nothing; (cv, CvFix model of the repaired cv.c) every access to a waiter record by a thread other than its owner happens while the record is queued or on that waker's private list with its owner still inside the wait, for pooled records and for nsync_wait_n records alike, and the owner returns only after the record is on no list (C13_record_touch, C13_record_touch_nw_full_true, C13_owner_returns_clean[_waitn]); the V that follows the waker's last store touches no record (C13_late_V_touches_nothing); (nsync_wait_n, WaitN model) every access by a non-owner to a record of notes / counters / cvs is to a registered record, and at the return no record of the call is registered, queued or on a waker's list (C13_record_lifetime, C13_owner_returns_after); (cancellable cv / mu waits, SemWait model of sem_wait.c with the note-side walk of note.c) every access by a notifier to the on-stack record of nsync_sem_wait_with_cancel_ happens under the note's mutex with the record at the head of the note's list or just popped, while the owner is between its enqueue and the return of its final nsync_mu_lock (&note_mu), and the owner returns with the record on no list and no post owed (C13_cancel_record_touch, C13_cancel_owner_returns_clean). The waiter-pool contract all these layers assume is itself modelled and proved (Pool layer over common.c: a waiter struct is in use by at most one call at a time, the free list holds exactly the idle non-reserved structs and is touched only under its spinlock, `remove_count` / `waiting` / `flags` / `sem` are written by pool code only in the initialisation block — so remove_count is monotone across reuses —, a thread's reserved struct comes back to that thread: Pool_exclusive, Pool_free_list_inv, Pool_init, Pool_remove_count_monotone, Pool_reserved). Tied to the code by lockstep (refcount / waitn* / cv / muc families through the matching acceptors) and by the runtime's liveness tracking: every atomic AND plain access (TSan instrumentation) of every explored execution is checked against reclaimed heap blocks, reclaimed mutexes and dead stack records (oracles dead-object, dead-stack). For notes (Props/C13Note over the Note model, WAIT_FOR_NO_CHILDREN releasing the mutex in the middle of a notification): a thread in the wake loop of a note holds its mutex, whoever else holds it and finds the note notified finds n->waiters empty, so a dequeuer that decides 'not still queued' from the flag leaves no record behind and no wake loop pending (C13_note_wake_loop_holds_lock, C13_note_locked_notified_has_no_waiters, C13_note_dequeue_leaves_nothing).",
     "level_note": "The SemWait layer models ONE flat cancel note per record (parents enter through an `inherit` event) and protocol-driven notifiers; the forest is the Note layer's business. Defect F3 (found by this property's oracle) is repaired in /repo; the pre-repair model and refutation are kept (Props/C13Cv.lean). Sampled correspondence.",
 }
 
